@@ -18,6 +18,10 @@ const ALPHABET: [&str; 17] = [
 /// the 8 escape-relevant symbols used for the extra length
 const CORE: [&str; 8] = ["'", "\"", "\\", "n", "0", "x", "z", "\n"];
 
+/// characters that are invisible or are line breaks of their own: a byte order mark, a zero width
+/// space, a bare carriage return, a CR LF pair, a tab - next to the backslash, a quote and a letter
+const EXOTIC: [&str; 10] = ["\u{feff}", "\u{200b}", "\r", "\r\n", "\t", "\\", "\n", "a", "'", "\u{a0}"];
+
 const BATCH: usize = 400;
 const POSITIONS: [&str; 4] = ["expr", "callarg", "tablekey", "index"];
 
@@ -50,6 +54,10 @@ impl Space {
         let core_lens: &[usize] = if tier == Tier::Quick { &[4, 5] } else { &[5, 6] };
         for l in core_lens {
             segs.push((&CORE, *l, bodies_of_len(&CORE, *l)));
+        }
+        let exotic_max = if tier == Tier::Quick { 2 } else { 3 };
+        for l in 1..=exotic_max {
+            segs.push((&EXOTIC, l, bodies_of_len(&EXOTIC, l)));
         }
         Space { segs }
     }
@@ -167,7 +175,20 @@ fn check_program(ctx: &mut Ctx, id: &str, prog: &str, c: &Cfg, n_lits_expected: 
         if dx != dy || dx.is_none() {
             // reduce to the single literal for the replay file
             let form = if x.starts_with('"') { "dq" } else if x.starts_with('\'') { "sq" } else { "long" };
-            let feature = escape_feature(x);
+            // long brackets have no escapes: their only feature is a raw carriage return
+            let feature = if form == "long" {
+                if x.contains("\r\n\r") || x.contains("\r\r\n") || x.contains("\n\r") {
+                    "cr-lf-run" // a run of CR / LF characters that is more than one plain CR LF pair
+                } else if x.replace("\r\n", "").contains('\r') {
+                    "bare-cr"
+                } else if x.contains('\r') {
+                    "crlf"
+                } else {
+                    "none"
+                }
+            } else {
+                escape_feature(x)
+            };
             let sg = format!("C04:string:{}:{}", form, feature);
             let single = format!("local v = {x}\n");
             ctx.finding(
